@@ -25,6 +25,9 @@ def reset_globals():
 
     reset_extra_live_points_parameters()
     torch.set_default_dtype(torch.float32)
+    # an interruption injected between the end of a `with torch.no_grad()` body and its
+    # __exit__ leaves grad mode off in this long-lived worker (a real process would have exited)
+    torch.set_grad_enabled(True)
     config.general.eps = 1e-8
     try:
         from nessai.utils import multiprocessing as nmp
